@@ -176,7 +176,7 @@ theorem reissue_exact_seed (recs : List ((List Nat × List Nat) × Nat)) (starts
 theorem initiate_bound {s : St} (h : (initiate s).2 = true) :
     0 < s.toinitiate ∧ (s.cstep : Int) + ((s.workers : Int) - s.toinitiate) < (s.tsteps : Int) ∧
       (initiate s).1.toinitiate = s.toinitiate - 1 :=
-  initiate_go h
+  initiate_go6 h
 
 /-- **4b. a second restart records them again, with the same ordinals**: the restart image written after the re-issues
     lists the re-issued jobs again (after whatever was on record before) together with their ordinals, and — the spawn
